@@ -4,6 +4,7 @@ import (
 	"context"
 	"fmt"
 	"runtime"
+	"strings"
 	"sync"
 	"sync/atomic"
 	"testing/synctest"
@@ -125,7 +126,8 @@ type Sched struct {
 	// scheduler lets virtual time advance to the next harness-level wake-up
 	// although tasks are runnable (a slow thread parked in the middle of an
 	// operation). Only for stacks without select-based blocking (no timer can
-	// become ready together with another case).
+	// become ready together with another case), or — thanks to lagSafe — for oracles
+	// that do not depend on exact instants (C02).
 	LagPct int
 	Lags   int
 
@@ -503,6 +505,19 @@ func firstLine(s string) string {
 	return s
 }
 
+// lagSafe: no task is parked right in front of a select (it may have armed a timer for it:
+// letting time pass there could make two cases of that select ready at once).
+//
+//go:norace
+func (s *Sched) lagSafe() bool {
+	for _, t := range s.tasks {
+		if t.parked() && strings.HasSuffix(t.site, "#select") {
+			return false
+		}
+	}
+	return true
+}
+
 //go:norace
 func (s *Sched) anySleeping() bool {
 	for _, t := range s.tasks {
@@ -710,7 +725,7 @@ func (s *Sched) loop() {
 			}
 			continue
 		}
-		if s.LagPct > 0 && s.anySleeping() && s.T.Intn(100, "lag?") >= 100-s.LagPct {
+		if s.LagPct > 0 && s.anySleeping() && s.lagSafe() && s.T.Intn(100, "lag?") >= 100-s.LagPct {
 			s.Lags++
 			if s.idle() {
 				continue
